@@ -124,6 +124,23 @@ class UHolder:
 
 
 @dataclass
+class UAmount:
+    value: int = field(metadata={"type": "Element"})
+
+
+@dataclass
+class ULabel:
+    value: str = field(metadata={"type": "Element"})
+
+
+@dataclass
+class UVal:
+    """a union of models with the SAME property names: which one a JSON object is depends on its values"""
+    v: Optional[Union[UAmount, ULabel]] = field(default=None, metadata={"type": "Element"})
+    vs: List[Union[UAmount, ULabel]] = field(default_factory=list, metadata={"type": "Element"})
+
+
+@dataclass
 class FacAttr:
     """attributes whose defaults come from FACTORIES (the serializer's ignore_default_attributes option asks the field
     metadata whether a value equals the default; the decoder asks it what an explicit null stands for)"""
@@ -253,6 +270,10 @@ def api_ops():
         # element name): the verdict for one string says nothing about the next string
         "decCompoundDate": lambda sh: sh.jp.from_string('{"when": "2024-02-29"}', m.Ev),
         "decCompoundDuration": lambda sh: sh.jp.from_string('{"when": "P1DT12H"}', m.Ev),
+        "decUnionLabel": lambda sh: sh.jp.from_string('{"v": {"value": "abc"}, "vs": [{"value": "x y"}]}', m.UVal),
+        "decUnionAmount": lambda sh: sh.jp.from_string('{"v": {"value": 7}, "vs": [{"value": 8}, {"value": "nine"}]}', m.UVal),
+        "parseUnionLabel": lambda sh: sh.xp.from_string("<UVal><v><value>abc</value></v></UVal>", m.UVal),
+        "parseUnionAmount": lambda sh: sh.xp.from_string("<UVal><v><value>7</value></v></UVal>", m.UVal),
         "serFacDefault": lambda sh: sh.xsd.render(m.FacAttr(v="a")),
         "serFacOther": lambda sh: sh.xsd.render(m.FacAttr(v="a", rate=Decimal("2"), codes=[3])),
         "decFacNull": lambda sh: sh.jp.from_string('{"v": "a", "rate": null, "codes": null}', m.FacAttr),
